@@ -60,8 +60,9 @@ impl Case {
         let cfg = match property {
             "C16" => WorldCfg { min_k: wr.below(3) as u16, max_extra_k: 1, max_ctx: 2, allow_restrict: false },
             "C17" => WorldCfg { min_k: 0, max_extra_k: 0, max_ctx: 0, allow_restrict: false },
+            "C12" if model.is_none() => WorldCfg { min_k: wr.range(1, 3) as u16, max_extra_k: 1, max_ctx: 4, allow_restrict: true },
             _ if model.is_some() => WorldCfg { min_k: wr.range(1, 2) as u16, max_extra_k: 0, max_ctx: 3, allow_restrict: true },
-            _ => WorldCfg { min_k: wr.range(1, 3) as u16, max_extra_k: 1, max_ctx: 4, allow_restrict: true },
+            _ => WorldCfg { min_k: wr.weighted(&[1, 4, 4, 3]) as u16, max_extra_k: 1, max_ctx: 4, allow_restrict: true },
         };
         let world = match model {
             Some(m) => {
